@@ -514,12 +514,12 @@ def ins_draw_cap(limit=2000):
 
 
 @contextlib.contextmanager
-def std_draw_cap(limit=20000):
+def std_draw_cap(limit=20000, max_populations=400):
     """Bound on the latent draws of one FlowProposal.populate call (backstop against hangs)."""
     from nessai.proposal.flowproposal import FlowProposal as FP
 
     o_dlp, o_pop = FP.draw_latent_prior, FP.populate
-    state = {"n": 0}
+    state = {"n": 0, "pops": 0}
 
     def dlp(self, n):
         state["n"] += 1
@@ -529,6 +529,9 @@ def std_draw_cap(limit=20000):
 
     def pop(self, *a, **k):
         state["n"] = 0
+        state["pops"] += 1
+        if state["pops"] > max_populations:
+            raise DrawCap(f"run does not terminate: {state['pops']} populations of the proposal pool (nominal: a few dozen)")
         return o_pop(self, *a, **k)
 
     FP.draw_latent_prior, FP.populate = dlp, pop
